@@ -42,8 +42,8 @@ class LoggingDict(dict):
 class C14(Check):
     prop = "C14"
     quick_runs = 160
-    thorough_runs = 6000
-    run_wall = 120.0
+    thorough_runs = 2000
+    run_wall = 600.0
     rule = ("one run = k in 1..6 caller threads each sending 1..3 requests through Bromelia.send_message and waiting; "
             "the stub connection makes each answer arrive after a seeded delay (0 .. 20 ms), in any order, optionally "
             "duplicated / never / preceded by unsolicited answers; seeded schedule with stalled-thread faults inside "
